@@ -205,10 +205,23 @@ def nprocs() -> int:
 _WORK = {}
 
 
+def _guarded(f, shard, rec):
+    """an exploration that dies is a finding about the tree under test (or the harness), never a silent pass"""
+    try:
+        f(shard, rec)
+    except Exception as e:  # noqa
+        import traceback
+
+        tb = traceback.format_exc()
+        rec.violate(f"{getattr(sys.modules.get(f.__module__), 'ID', '?')}|exploration-crashed|{type(e).__name__}",
+                    f"exploring shard {str(shard)[:120]} raised {type(e).__name__}: {str(e)[:120]}",
+                    {"__crash__": tb[-1500:], "shard": str(shard)[:300]})
+
+
 def _call(i):
     f, shards, seed = _WORK["f"], _WORK["shards"], _WORK["seed"]
     rec = Rec(seed)
-    f(shards[i], rec)
+    _guarded(f, shards[i], rec)
     return i, rec
 
 
@@ -223,7 +236,7 @@ def pmap(func, shards, seed=0, progress=None) -> Rec:
     if n <= 1:
         for i, s in enumerate(shards):
             r = Rec(seed)
-            func(s, r)
+            _guarded(func, s, r)
             results[i] = r
     else:
         _WORK.update(f=func, shards=shards, seed=seed)
